@@ -80,8 +80,7 @@ func main() {
 	code := 0
 	for _, id := range ids {
 		start := time.Now()
-		r := NewResult(id)
-		checks[id](p, r, *tier)
+		r := runCheck(p, id, *tier)
 		if *tier == "thorough" && flagOnly == "" {
 			selfValidate(id, r, *repo, *verif)
 		}
@@ -99,6 +98,63 @@ func main() {
 		}
 	}
 	os.Exit(code)
+}
+
+// resultCache holds the raw result of every check run in this process (a check may share rules of another one).
+var resultCache = map[string]*Result{}
+
+func runCheck(p *Prog, id, tier string) *Result {
+	if r, ok := resultCache[id]; ok {
+		return r
+	}
+	r := NewResult(id)
+	checks[id](p, r, tier)
+	for _, sh := range sharedRules[id] {
+		shareRule(p, r, tier, sh.from, sh.rule, sh.as, sh.why)
+	}
+	resultCache[id] = r
+	return r
+}
+
+type share struct{ from, rule, as, why string }
+
+// sharedRules: structural necessary conditions that serve more than one property (no cycles: a check listed as `from`
+// never shares, directly or not, from the property that borrows from it).
+var sharedRules = map[string][]share{
+	"C01": {
+		{"C14", "C14.R1", "C01.S1", "a stored entry that aliases the caller's structure changes what reads report without any accepted write"},
+		{"C14", "C14.R2", "C01.S2", "a read that hands out the stored entry lets the caller change what later reads report"},
+	},
+	"C03": {{"C04", "C04.R4", "C03.S1", "uniqueness is judged on the case-normalised value: a published schema without its transformer list judges raw values"}},
+	"C15": {{"C04", "C04.R4", "C15.S1", "the schema case transforms are a no-op on a published schema whose transformer list was not rebuilt"}},
+	"C16": {{"C04", "C04.R4", "C16.S1", "case-insensitive fields are stored and indexed un-normalised when a published schema lacks its transformer list"}},
+	"C08": {{"C10", "C10.R5", "C08.S1", "the flusher's closed-handle test and its flush must be one critical section, otherwise the flush can run after a concurrent Close/Drop returned (check-then-act)"}},
+	"C12": {{"C01", "C01.R2", "C12.S1", "under every cache / async valuation a delete evicts what that valuation caches, otherwise Exist/Get answers depend on the configuration"}},
+	"C13": {{"C02", "C02.R5", "C13.S1", "result order is the order of the live field index: a write through a result slice aliasing it re-orders or drops entries"}},
+	"C18": {{"C16", "C16.R4", "C18.S1", "field descriptors are part of schema.json and are compared on Create: the tag words must produce the constraint flags the pinned release wrote"}},
+	"C19": {
+		{"C17", "C17.R2", "C19.S1", "the index panics recorded as known findings are unreachable only for an index that passed the control: a schema published after a failed control reaches them"},
+		{"C11", "C11.R3", "C19.S2", "a schema whose load failed with a plain error must not stay in the table, later calls would work on an index that failed its own control"},
+	},
+}
+
+// shareRule re-states a rule of another property's check under this property: the rule is a necessary condition of
+// both. The obligations are those of the other check, run on the same program; `as` is the rule id here and `why` says
+// what this property needs it for.
+func shareRule(p *Prog, r *Result, tier, from, rule, as, why string) {
+	src := runCheck(p, from, tier)
+	doc, ok := src.Rules[rule]
+	if !ok {
+		broken("shared rule %s not defined by %s", rule, from)
+	}
+	r.Rule(as, doc+" [same obligations as "+rule+"; needed here because "+why+"]", src.MinCount[rule])
+	for _, o := range src.Obligations() {
+		if o.Rule != rule {
+			continue
+		}
+		n := r.Report(as, o.Func, o.Construct, o.Status, o.Detail, o.Where, o.Trace, o.Nontrivial)
+		n.Contexts = o.Contexts
+	}
 }
 
 // MultiListener fans events out.
